@@ -108,6 +108,7 @@ impl zlink_core::Listener for ScriptedListener {
         }
     }
 }
+thread_local! { static SERVED: std::cell::RefCell<Vec<u32>> = std::cell::RefCell::new(Vec::new()); }
 struct Svc;
 impl zlink_core::Service for Svc {
     type MethodCall<'de> = M;
@@ -117,7 +118,7 @@ impl zlink_core::Service for Svc {
     type ReplyError<'ser> = E;
     async fn handle<'ser>(&'ser mut self, call: Call<Self::MethodCall<'_>>) -> MethodReply<Self::ReplyParams<'ser>, Self::ReplyStream, Self::ReplyError<'ser>> {
         match call.method() {
-            M::B { a } => MethodReply::Single(Some(P { a: *a })),
+            M::B { a } => { SERVED.with(|s| s.borrow_mut().push(*a)); MethodReply::Single(Some(P { a: *a })) }
             M::C => MethodReply::Single(None),
             M::S { .. } => MethodReply::Error(E::Bad { code: 7 }),
         }
@@ -145,7 +146,10 @@ fn oracle_server(wire: &[u8]) -> Vec<String> {
 }
 
 fn run_server(wires: &[Vec<u8>], cuts: &[usize]) -> (Vec<Vec<String>>, Vec<Vec<String>>) {
-    let socks: Vec<ScriptedSocket> = wires.iter().map(|w| ScriptedSocket::new(w, cuts)).collect();
+    run_server_opt(wires, cuts, false)
+}
+fn run_server_opt(wires: &[Vec<u8>], cuts: &[usize], hold_open: bool) -> (Vec<Vec<String>>, Vec<Vec<String>>) {
+    let socks: Vec<ScriptedSocket> = wires.iter().map(|w| { let s = ScriptedSocket::new(w, cuts); s.0.borrow_mut().hold_open = hold_open; s }).collect();
     let scripts: Vec<_> = socks.iter().map(|s| s.0.clone()).collect();
     let mut conns = socks;
     conns.reverse();
@@ -427,6 +431,45 @@ fn search_send(seed: u64, budget: usize) -> Option<Value> {
     None
 }
 
+// ---------------------------------------------------------------------------------------------
+// C18: fairness.  Every connection has all its calls available from the start (one pipelined burst each);
+// call `a` = 100 * connection + sequence number.  Expected: no connection is served twice in a row while another
+// connection still has an unserved call (they have all been waiting the whole time).
+fn run_fair(counts: &[usize], cuts: &[usize]) -> Option<String> {
+    SERVED.with(|s| s.borrow_mut().clear());
+    let wires: Vec<Vec<u8>> = counts.iter().enumerate().map(|(c, n)| {
+        let mut w = Vec::new();
+        for k in 0..*n { w.extend_from_slice(format!(r#"{{"method":"a.B","parameters":{{"a":{}}}}}"#, 100 * c + k).as_bytes()); w.push(0); }
+        w
+    }).collect();
+    let _ = run_server_opt(&wires, cuts, true); // connections stay open: the set of connections is unchanged
+    let order: Vec<u32> = SERVED.with(|s| s.borrow().clone());
+    let mut left: Vec<usize> = counts.to_vec();
+    for (i, a) in order.iter().enumerate() {
+        let c = (*a / 100) as usize;
+        if i > 0 && (order[i - 1] / 100) as usize == c {
+            if left.iter().enumerate().any(|(o, n)| o != c && *n > 0) {
+                return Some(format!("connection {c} served twice in a row at position {i} while others were waiting; order of service (100*conn+seq) = {order:?}"));
+            }
+        }
+        if left[c] > 0 { left[c] -= 1; }
+    }
+    if order.len() != counts.iter().sum::<usize>() { return Some(format!("served {} of {} calls: {order:?}", order.len(), counts.iter().sum::<usize>())); }
+    None
+}
+fn search_fair(seed: u64, budget: usize) -> Option<Value> {
+    let mut rng = Rng(seed.wrapping_mul(0x9E3779B97F4A7C15) | 1);
+    for _ in 0..budget {
+        let n = 2 + rng.below(4);
+        let counts: Vec<usize> = (0..n).map(|_| 1 + rng.below(5)).collect();
+        let cuts: Vec<usize> = match rng.below(3) { 0 => vec![], 1 => vec![4096], _ => vec![30 + rng.below(200)] };
+        if let Some(why) = run_fair(&counts, &cuts) {
+            return Some(json!({"kind":"fair","counts":counts,"cuts":cuts,"why":why}));
+        }
+    }
+    None
+}
+
 struct Rng(u64);
 impl Rng {
     fn next(&mut self) -> u64 {
@@ -500,6 +543,7 @@ fn main() {
             "chain" => search_chain(seed, budget / 10),
             "idl" => search_idl(seed, budget),
             "send" => search_send(seed, budget / 4),
+            "fair" => search_fair(seed, budget / 40),
             _ => panic!("unknown kind"),
         };
         match found {
@@ -533,6 +577,15 @@ fn main() {
                 std::process::exit(1);
             }
             println!("REPLAY: passes on the real code");
+        }
+        Some("fair") => {
+            let counts: Vec<usize> = w["counts"].as_array().unwrap().iter().map(|x| x.as_u64().unwrap() as usize).collect();
+            let cuts: Vec<usize> = w["cuts"].as_array().unwrap().iter().map(|x| x.as_u64().unwrap() as usize).collect();
+            println!("calls per connection (all available from the start) = {counts:?}, read chunking = {cuts:?}");
+            match run_fair(&counts, &cuts) {
+                Some(why) => { println!("{why}\nREPLAY: FAILS on the real code"); std::process::exit(1); }
+                None => println!("REPLAY: passes on the real code"),
+            }
         }
         Some("send") => {
             let ops: Vec<(u8, usize)> = w["ops"].as_array().unwrap().iter().map(|x| (x[0].as_u64().unwrap() as u8, x[1].as_u64().unwrap() as usize)).collect();
